@@ -74,7 +74,8 @@ def check(ctx):
     # a keyframe value can only be reached exactly if the lookup tables line up: every sub-timeline ends with a held frame
     # at 100 % (splitter) and the generated timeline searches the builder arguments' own boundary table (derive wiring)
     c01.rule_split(ctx, F, "R4")
-    c01.rule_lookup(ctx, F, "R4", "R4")      # at and after the last frame the lookup yields that frame (the value is held)
+    c01.rule_lookup(ctx, F, "R4", "R4")
+    c01.rule_search(ctx, F, "R4")            # the frame is found by a search for the position in every phase      # at and after the last frame the lookup yields that frame (the value is held)
     from rules import derive_rules
     derive_rules.rule_wiring(ctx, "R4")
     ctx.notes.append("not decided: 'within a few ulps' at interior keyframes (needs ease(1) = 1 and division rounding), "
